@@ -274,7 +274,7 @@ def run(ck):
                 continue
             how, ev, chain = wparse[fld][0]
             ok = fld in covered
-            if not ok and fld != lib.STREAMBUF_AREA and not fld.startswith(tuple(MSG_PREFIXES)) and fld not in influencing_reads():
+            if not ok and fld != lib.STREAMBUF_AREA and not fld.startswith(tuple(MSG_PREFIXES)) and strip_tmpl(fld) not in influencing_reads():
                 # bookkeeping of the parser itself (a counter that is only ever incremented, say): nothing reachable from the parse
                 # roots looks at it, so what it holds cannot reach the next message
                 ck.note("C04-R2: %s is written while parsing and never read by the parser (only updated): not state of a message" % fld.replace(H, ""))
